@@ -33,11 +33,13 @@ CHECKS["C04"] = dict(
 
 CHECKS["C01"] = dict(
     level="model_checking", engine="xstate+sched", design_ref="DESIGN.md §5 C01",
-    technique="explicit-state BFS to fixpoint over pool changes (accepted and refused) and selections on the real RoundRobin, windows from every state and across every refused operation + stateless DFS over all interleavings of concurrent selectors",
+    technique="explicit-state BFS to fixpoint over pool changes (accepted and refused) and selections on the real RoundRobin, windows from every state and across every refused operation + stateless DFS over all interleavings of concurrent selectors + one long run (one unchanged pool, every window of more than 2^32 iterator steps)",
     text="Every reachable (pool order, weights, iterator) state of the real balancer over 3-4 servers and the weight alphabet is visited; from each, the next W selections must hit server i exactly w_i/g times (so every window offset after every history of pool changes). Concurrent part: all interleavings of 2-4 selector threads; the combined completion-order sequence must satisfy the same counts.",
     note="weights limited to the alphabet plus a list of very unequal fixed pools (A4); sequential consistency between scheduling points (A3)",
     parts=[dict(bin="vh", part="c01", shards=16, gang=True, budget=dict(quick=100, thorough=1500)),
-           dict(bin="vsched-race", part="c01s", shards=16, budget=dict(quick=100, thorough=1500))])
+           dict(bin="vsched-race", part="c01s", shards=16, budget=dict(quick=100, thorough=1500)),
+           # the long run: one unchanged pool, more than 2^32 iterator steps, every window checked on the way
+           dict(bin="vh", part="c01long", shards=1, budget=dict(quick=200, thorough=1500))])
 
 CHECKS["C02"] = dict(
     level="model_checking", engine="xstate+sched", design_ref="DESIGN.md §5 C02",
